@@ -2159,7 +2159,7 @@ Error Assembler::_emit(InstId inst_id, const Operand_& o0, const Operand_& o1, c
         if (op_data.mandatory_reg && isign4 != ENC_OPS2(Imm, Reg))
           goto InvalidInstruction;
 
-        if (o0.as<Imm>().value_as<uint64_t>() > 0x7FFFu)
+        if (o0.as<Imm>().value_as<uint64_t>() > 0x3FFFu)
           goto InvalidImmediate;
 
         uint32_t imm = o0.as<Imm>().value_as<uint32_t>();
@@ -2900,7 +2900,8 @@ Case_BaseLdurStur:
         if (!check_even(o0, o2) || !check_gp_id(o0, o2, kZR))
           goto InvalidPhysId;
 
-        if (!check_consecutive(o0, o1) || !check_consecutive(o2, o3))
+        // The partner of register 30 is ZR (encoded as 31), not SP.
+        if (o1.id() != (o0.id() == 30u ? kZR : o0.id() + 1u) || o3.id() != (o2.id() == 30u ? kZR : o2.id() + 1u))
           goto InvalidPhysId;
 
         opcode.reset(op_data.opcode());
